@@ -45,7 +45,11 @@ def gen_cases(ctx):
         for v in ("tdvp1", "tdvp2"):
             cases.append({"kind": "step", "variant": v, "par": _normalise(par), "seed": rng.randrange(10 ** 9),
                           "steps": 2, "fullrank": True})
-    for _ in range(ctx.n(10, 150)):
+    for par in gen.HARD_SHAPES:
+        for v in ("tdvp1", "tdvp2"):
+            cases.append({"kind": "step", "variant": v, "par": par, "seed": rng.randrange(10 ** 9),
+                          "steps": 2, "fullrank": True, "pregauge": None})
+    for _ in range(ctx.n(8, 150)):
         for v in ("tdvp1", "tdvp2"):
             kind = rng.choice([None, None, "spider", "chain", "twig", "twig", "bush"])
             n = rng.choice([3, 4, 5, 5, 6, 7]) if kind else rng.choice([2, 3, 4, 5, 6])
@@ -123,15 +127,9 @@ def _problem(case):
     par = case["par"]
     n = len(par)
     if case.get("fullrank"):
-        phys_choices, bonds = (2, 3), (1, 2)
+        ttns, info = gen.random_fullrank_ttns(rng, nprng, par, phys=(2, 3) if n <= 5 else (2,), bonds=(2, 2, 3))
     else:
-        phys_choices, bonds = (2, 2, 3), (1, 2, 3, 4)
-    ttns, info = gen.random_ttns(rng, nprng, par, phys=phys_choices, bonds=bonds)
-    if case.get("fullrank"):
-        # make bonds no larger than the smaller side can support
-        ok = all(not c05._redundant(ttns, nid) for nid in ttns.nodes)
-        if not ok:
-            ttns, info = gen.random_ttns(rng, nprng, par, phys=(2, 3), bonds=(1,))
+        ttns, info = gen.random_ttns(rng, nprng, par, phys=(2, 2, 3) if n <= 5 else (2,), bonds=(1, 2, 3, 4))
     names = info["names"]
     if case.get("pregauge"):
         # the caller hands over a state that is already canonical somewhere (KEEP keeps padded bonds)
